@@ -1856,6 +1856,24 @@ static int64_t eval_trunc(Type *ty, int64_t val) {
   return val;
 }
 
+// Evaluate a division or a remainder.
+static int64_t eval_div(Node *node) {
+  int64_t lhs = eval(node->lhs);
+  int64_t rhs = eval(node->rhs);
+  bool is_div = (node->kind == ND_DIV);
+
+  if (rhs == 0)
+    error_tok(node->tok, "division by zero in a constant expression");
+
+  if (node->ty->is_unsigned)
+    return is_div ? (uint64_t)lhs / (uint64_t)rhs : (uint64_t)lhs % (uint64_t)rhs;
+
+  // INT64_MIN / -1 overflows and traps on x86-64.
+  if (rhs == -1)
+    return is_div ? eval_trunc(node->ty, -(uint64_t)lhs) : 0;
+  return is_div ? eval_trunc(node->ty, lhs / rhs) : lhs % rhs;
+}
+
 // Evaluate a given node as a constant expression.
 //
 // A constant expression is either just a number or ptr+n where ptr
@@ -1876,13 +1894,8 @@ static int64_t eval2(Node *node, char ***label) {
   case ND_MUL:
     return eval_trunc(node->ty, eval(node->lhs) * eval(node->rhs));
   case ND_DIV:
-    if (node->ty->is_unsigned)
-      return (uint64_t)eval(node->lhs) / eval(node->rhs);
-    return eval_trunc(node->ty, eval(node->lhs) / eval(node->rhs));
   case ND_MOD:
-    if (node->ty->is_unsigned)
-      return (uint64_t)eval(node->lhs) % eval(node->rhs);
-    return eval(node->lhs) % eval(node->rhs);
+    return eval_div(node);
   case ND_NEG:
     return eval_trunc(node->ty, -eval(node->lhs));
   case ND_BITAND:
